@@ -129,7 +129,7 @@ class RefParser:
             return ('MultiList', tuple(s.list_until('Rbracket', allow_empty=False, allow_expref=False)))
         if k == 'Flatten': return ('Projection', ('Flatten', ('Identity',)), s.proj_rhs(BP['Flatten']))
         if k == 'Lbrace': return s.multihash()
-        if k == 'Not': return ('Not', s.expr(BP['Not']))
+        if k == 'Not': return ('Not', strip(s.expr(BP['Not'])))
         if k == 'Filter': return s.filter(('Identity',))
         if k == 'Lparen':
             e = s.expr(0); s.expect('Rparen'); return ('Paren', e)
@@ -217,4 +217,9 @@ def strip(t):
     """parentheses only group: ('Paren', e) -> e"""
     while t[0] == 'Paren': t = t[1]
     return t
-def ref_parse(tokens): return strip(RefParser(tokens).parse())
+def deep_strip(t):
+    if isinstance(t, tuple):
+        t = strip(t) if t and t[0] == 'Paren' else t
+        return tuple(deep_strip(x) for x in t)
+    return t
+def ref_parse(tokens): return deep_strip(RefParser(tokens).parse())
